@@ -185,10 +185,10 @@ def task(nconn, strip, literal_name=False, direct_wired=False):
                 else:
                     n_ret += 1
             ctx.oblige(f"{label}/cover:returns-and-rejects", [], z3.BoolVal(n_ret > 0 and n_exc > 0), "cover")
-            return {"function": f"{F}::{QUAL}", "sha256": sha, "lines": [fn.lineno, fn.end_lineno], "variants": [label], "kind": "postcondition on the body"}
+            return {"function": f"{F}::{QUAL}", "sha256": sha, "lines": engine.abs_lines(fn), "variants": [label], "kind": "postcondition on the body"}
         specs = verify.run_summary(ex, layer2.s_add_subcircuit, st0, me, [sc, name], {"connections": conns, "strip_io": strip})
         verify.refine_vcs(ex, label, st0, body, specs)
-        return {"function": f"{F}::{QUAL}", "sha256": sha, "lines": [fn.lineno, fn.end_lineno], "variants": [label]}
+        return {"function": f"{F}::{QUAL}", "sha256": sha, "lines": engine.abs_lines(fn), "variants": [label]}
     return run
 
 
@@ -256,7 +256,7 @@ def task_add_blackbox():
         body = verify.bind_and_run(ex, fn, st0, bind)
         specs = verify.run_summary(ex, layer2.s_add_blackbox, st0, me, [b, name], {})
         verify.refine_vcs(ex, label, st0, body, specs)
-        return {"function": f"{F}::{QUAL_BB}", "sha256": sha, "lines": [fn.lineno, fn.end_lineno], "variants": [label]}
+        return {"function": f"{F}::{QUAL_BB}", "sha256": sha, "lines": engine.abs_lines(fn), "variants": [label]}
     return run
 
 
@@ -351,7 +351,7 @@ def task_add_blackbox_connections():
             else:
                 n_ret += 1
         ctx.oblige(f"{label}/cover:returns-and-rejects", [], z3.BoolVal(n_ret > 0 and n_exc > 0), "cover")
-        return {"function": f"{F}::{QUAL_BB}", "sha256": sha, "lines": [fn.lineno, fn.end_lineno], "variants": [label], "kind": "postcondition on the body"}
+        return {"function": f"{F}::{QUAL_BB}", "sha256": sha, "lines": engine.abs_lines(fn), "variants": [label], "kind": "postcondition on the body"}
     return run
 
 
@@ -496,7 +496,7 @@ def task_fill_blackbox():
                 n_ret += 1
                 ctx.oblige(f"{label}/filled-instance-unregistered#{i}", o.st.pc, z3.Not(z3.Select(bb1.dom, nm)), "post")
         ctx.oblige(f"{label}/cover:returns-and-rejects", [], z3.BoolVal(n_ret > 0 and n_exc > 0), "cover")
-        return {"function": f"{F}::{QUAL_FILL}", "sha256": sha, "lines": [fn.lineno, fn.end_lineno], "variants": [label], "kind": "postcondition on the body"}
+        return {"function": f"{F}::{QUAL_FILL}", "sha256": sha, "lines": engine.abs_lines(fn), "variants": [label], "kind": "postcondition on the body"}
     return run
 
 
